@@ -344,7 +344,8 @@ def _builder_option_cases(rng, tier):
     n = 0
     for c in c10.generate(r2, "quick"):
         cfg = c.meta.get("cfg_text", "")
-        if "/tcp:" not in cfg or cfg.endswith("|-") or c.meta.get("payload", "").startswith("len:"):
+        tcph = "tcph:" in cfg  # a pre-built TcpHeader (with its options) handed to `tcp_header()`
+        if ("/tcp:" not in cfg and not tcph) or (cfg.endswith("|-") and not tcph) or c.meta.get("payload", "").startswith("len:"):
             continue
         n += 1
         # the empty raw area / the empty element list (an options call that has to CLEAR what an earlier call
